@@ -138,11 +138,14 @@ class Check:
                 # a second (soft) clause was met earlier on the same trace: report the one this property owns
                 def owned(cl):
                     return (self.prop in clause_props(cl)) if own is None else (any(cl.startswith(o) for o in own) or self.prop in ALSO.get(cl, ()))
-                if not owned(clause) and owned(v[3]):
-                    clause = v[3]
-                elif not owned(v[3]):
-                    sec = self.notes.setdefault("secondary_clauses_not_owned_by_this_property", {})
-                    sec[v[3]] = sec.get(v[3], 0) + 1
+                alts = v[3].split("|")
+                mine = [a for a in alts if owned(a)]
+                if not owned(clause) and mine:
+                    clause = mine[0]
+                for a in alts:
+                    if not owned(a):
+                        sec = self.notes.setdefault("secondary_clauses_not_owned_by_this_property", {})
+                        sec[a] = sec.get(a, 0) + 1
             if clause == "ok":
                 if nontrivial is None or nontrivial(tr):
                     self.nontrivial.add(trace_key(tr))
